@@ -12,7 +12,7 @@ def run(ctx):
                   "thorough": "octaves 0..9"}[ctx.tier]
     ctx.rule = "TLC-enumerated (Gen_C10); distinct = distinct (operation, arguments); non-trivial = name with an accidental or a shorthand with an accidental"
     ctx.nontrivial = lambda r: r["op"] == "lift" or (isinstance(r["in"].get("n"), list) and len(r["in"]["n"]) > 1) or len(r["in"].get("sh", [])) > 1 or "diff" in r["in"]
-    recs = ctx.execute("c10", cases)
+    recs = ctx.execute("c10", cases, orders=2)
     recs = [r for r in recs if r["op"] in ("transpose", "transpose_updown", "change_octave", "augdim")]
     ctx.validate("Trace_C10", recs, driver="c10")
     try:
